@@ -69,6 +69,7 @@ class Ledger(Monitor):
     def on_init(self, run):
         self.m = run.model
         self.enabled = self.m is not None
+        self.run_ref = run
         run.ledger = self
         self.execs = []
         self.open = {}  # (task, route) -> Exec
@@ -295,8 +296,11 @@ class Ledger(Monitor):
         for d in e.dl:
             pred.update(self.deltas.get(d, {}))
         if var is None:
-            return ["stale_delta_order"] if any(pred.get(k) != v.value for k, v in e.ectx.items()) else None
-        if var in pred and observed is not None and pred[var] == observed and e.ectx[var].value != observed:
+            hit = any(pred.get(k) != v.value for k, v in e.ectx.items())
+        else:
+            hit = var in pred and observed is not None and pred[var] == observed and e.ectx[var].value != observed
+        if hit:
+            self.run_ref.tags.add("stale_delta_order")
             return ["stale_delta_order"]
         return None
 
@@ -358,6 +362,25 @@ class Ledger(Monitor):
             out[v] = Entry(win.value, tuple(chain), racy)
         return out
 
+    @staticmethod
+    def _list_merge(current, incoming):
+        """the monitors' model of how a list-of-deltas representation merges an arriving branch: an entry already
+        included keeps its place, a new one goes after what precedes it and, if possible, before what follows it in
+        the arriving list, else to the end.  A single list order cannot express the per-variable rule of the
+        property in every nested-join shape; this model is what identifies those cases (cause tag
+        `stale_delta_order`): the observed value equals the model's prediction while the causal rule
+        prescribes another."""
+        merged = list(current)
+        for pos, idx in enumerate(incoming):
+            if idx in merged:
+                continue
+            leaders = [merged.index(i) for i in incoming[:pos] if i in merged]
+            followers = [merged.index(i) for i in incoming[pos + 1:] if i in merged]
+            after = max(leaders) + 1 if leaders else 0
+            before = min(followers) if followers else len(merged)
+            merged.insert(max(after, before), idx)
+        return merged
+
     def _merge_dl(self, arr):
         dl = None
         for a in arr:
@@ -367,7 +390,7 @@ class Ledger(Monitor):
             if dl is None:
                 dl = list(d)
             else:
-                dl.extend(x for x in d if x != 0)
+                dl = self._list_merge(dl, [x for x in d if x != 0])
         return dl
 
     # ------------------------------------------------------------------ retry model
@@ -556,6 +579,7 @@ class Ledger(Monitor):
         handled = False
         fail_here = False
         new_obs = []
+        tr_delta = {}
         rank = {}
         engine_next = (rec or {}).get("next") or {}
         for target, tr in t.edges():
@@ -606,9 +630,12 @@ class Ledger(Monitor):
                     return
             dl = list(e.dl) if e.dl is not None else None
             if delta and dl is not None:
-                self.deltas[self.ndelta] = delta
-                dl.append(self.ndelta)
-                self.ndelta += 1
+                # one delta per transition, shared by all its targets
+                if tr.idx not in tr_delta:
+                    self.deltas[self.ndelta] = delta
+                    tr_delta[tr.idx] = self.ndelta
+                    self.ndelta += 1
+                dl.append(tr_delta[tr.idx])
             ob = dict(target=target, src=e, tr=tr, route=e.route, used=False, rof=False, split=None, ectx=ectx,
                       dl=dl, born=run.step)
             if target in ENGINE_CMDS:
@@ -759,24 +786,22 @@ class Ledger(Monitor):
                 pred = self._term_pred()
                 if pred is not None and pred.get(var, "<absent>") == got:
                     cause.append("stale_delta_order")
+                    run.tags.add("stale_delta_order")
                 run.viol("C06", "output_mismatch", "output %s = %r, the contexts reaching the terminal tasks prescribe %r"
                          % (name, got, vals[var]), subject=var, cause=cause or None)
 
     def _term_pred(self):
-        """what the engine's terminal-context construction (first terminal record's full list, then the
-        others' lists minus the root, applied in record order) yields"""
+        """what a list-of-deltas terminal context (terminal records in record order, lists merged) yields"""
         try:
-            pred = {}
-            first = True
+            lst = None
             for e in sorted([x for x in self.execs if x.state == "done"], key=lambda x: x.finish_no):
                 for tc in e.term_ctxs:
                     if tc.get("dl") is None:
                         return None
-                    for d in tc["dl"]:
-                        if d == 0 and not first:
-                            continue
-                        pred.update(self.deltas.get(d, {}))
-                    first = False
+                    lst = list(tc["dl"]) if lst is None else self._list_merge(lst, tc["dl"])
+            pred = {}
+            for d in lst or []:
+                pred.update(self.deltas.get(d, {}))
             return pred
         except Exception:
             return None
